@@ -18,7 +18,8 @@ REQUIRED = ['treeOK_of_disciplined', 'tree_discipline', 'run_discipline', 'leaf_
 RULE = ('1..3 trench columns (or U-trench columns with 0..2 pillars) are dug with the real API from layouts of straight / tilted / S-bent '
         'guides (some leaving a neck that splits when inset), with random box counts, box height, z offset <= 0, deltaz, floor spacing, '
         'speeds, power-axis settings and base folders, and exported by the real TrenchWriter / UTrenchWriter.pgm() under random compiler '
-        'configurations (rotation, flips, shift, refractive indices, aerotech angle, laser) into a scratch directory.  The whole tree is '
+        'configurations (rotation, flips, shift, refractive indices, aerotech angle, laser) into a scratch directory; in 30 % of the '
+        'cases the columns are exported once, their depth parameters are changed, and the second export is the one judged.  The whole tree is '
         'read back and run by the Lean reference controller with FARCALL inlining (ctl.tree): every file must parse, have balanced '
         'loops, the tree must pass the static shutter discipline (whose soundness is the theorem), no error event (call of a '
         'program that is not loaded / not in the tree, removal of one that is not loaded) may occur, the run must end closed with '
@@ -48,7 +49,7 @@ CLAIM = {
 }
 
 EXTRA_MODULES = ['FemtoVerif.Proofs.TreeLemmas']
-KEYS = ('cols', 'cfg', 'utrench', 'dirname')
+KEYS = ('cols', 'cfg', 'utrench', 'dirname', 'mutate')
 
 
 # ------------------------------------------------------------------------------------------------------------------
@@ -90,11 +91,16 @@ def gen_case(rng, directed=None):
             guides = [{'kind': 'sbend2', 'y': round(ym + gap / 2 + b, 5), 'xa': xa, 'xb': xb, 'dy': -b, 'xs': round(col['x_center'] - col['length'] / 2 - 0.3, 4)},
                       {'kind': 'sbend2', 'y': round(ym - gap / 2 - b, 5), 'xa': xa, 'xb': xb, 'dy': b, 'xs': round(col['x_center'] - col['length'] / 2 - 0.3, 4)}]
         cols.append({'col': col, 'guides': guides})
+    mutate = None
+    if rng.random() < 0.3:
+        mutate = [{k: v for k, v in (('deltaz', rng.choice([0.005, 0.0125, 0.004])), ('h_box', rng.choice([0.04, 0.06])),
+                                     ('z_off', rng.choice([-0.01, 0.0])), ('nboxz', rng.choice([1, 2]))) if rng.random() < 0.5}
+                  for _ in cols]
     cfg = gcommon.gen_cfg(rng, False, neutral_ok=True)
     cfg['output_digits'] = 6
     cfg['export_dir'] = rng.choice(['', 'out', 'a/b'])
     cfg['filename'] = 'trenches.pgm'
-    return {'cols': cols, 'cfg': cfg, 'utrench': utrench, 'dirname': rng.choice(['TRENCH', 'TR', 'u-tr'])}
+    return {'cols': cols, 'cfg': cfg, 'utrench': utrench, 'dirname': rng.choice(['TRENCH', 'TR', 'u-tr']), 'mutate': mutate}
 
 
 def build_guide(g):
@@ -153,7 +159,7 @@ def check_case(ctx, case):
     import numpy as np
     from shapely import geometry
     from femto.writer import TrenchWriter, UTrenchWriter
-    info = {k: case[k] for k in KEYS}
+    info = {k: case.get(k) for k in KEYS}
     cfg = dict(case['cfg'])
     cfg['shift_origin'] = tuple(cfg['shift_origin'])
     try:
@@ -167,6 +173,17 @@ def check_case(ctx, case):
     with gcommon.Scratch() as d, core.quiet():
         try:
             W = (UTrenchWriter if case['utrench'] else TrenchWriter)(cols, dirname=case['dirname'], **cfg)
+            if case.get('mutate'):
+                # the columns are exported once (with the time estimate), then their depth parameters are changed and they are
+                # exported again: the second tree is the one judged, against the new parameters
+                W.pgm(verbose=True)
+                for r, _, fs in os.walk(d):
+                    for f in fs:
+                        os.unlink(os.path.join(r, f))
+                for tc, mu in zip(cols, case['mutate']):
+                    for k, v in mu.items():
+                        setattr(tc, k, v)
+                W = (UTrenchWriter if case['utrench'] else TrenchWriter)(cols, dirname=case['dirname'], **cfg)
             W.pgm(verbose=False)
         except core.InfraError:
             raise
@@ -186,8 +203,8 @@ def check_case(ctx, case):
     leaf_files = [(n, t) for n, t in files if '/' in n]
     for n, t in leaf_files:
         reqs.append({'op': 'ctl.run', 'text': t})
-    for c in case['cols']:
-        p = c['col']
+    eff = [dict(c['col'], **(mu or {})) for c, mu in zip(case['cols'], case.get('mutate') or [None] * len(case['cols']))]
+    for p in eff:
         reqs.append({'op': 'c06.depth', 'h': q(p['h_box']), 'zoff': q(p['z_off']), 'dz': q(p['deltaz']), 'nboxz': p['nboxz']})
 
     def judge(res):
@@ -198,10 +215,11 @@ def check_case(ctx, case):
         leaf_runs = dict(zip([n for n, _ in leaf_files], res[1:1 + len(leaf_files)]))
         depth = res[1 + len(leaf_files):]
         nb = sum(len(b) for b in blocks)
-        nt = nb >= 2 and any(c['col']['nboxz'] >= 2 for c in case['cols']) and bool(cfg.get('flip_x') or cfg.get('flip_y') or (cfg.get('rotation_angle') or 0) % 360)
+        nt = nb >= 2 and any(p['nboxz'] >= 2 for p in eff) and bool(cfg.get('flip_x') or cfg.get('flip_y') or (cfg.get('rotation_angle') or 0) % 360)
         ctx.seen({'stream': 'tree', **info}, nt)
         ctx.count('tree.columns', str(len(cols)))
         ctx.count('tree.kind', 'U' if case['utrench'] else 'plain')
+        ctx.count('tree.history', 'parameters-changed-after-first-export' if case.get('mutate') else 'fresh')
         ctx.count('tree.blocks', str(min(nb, 6)))
         ctx.count('tree.files', str(len(files) // 5 * 5) + '+')
         # ---- static part, decided by the Lean controller on the real bytes
@@ -325,8 +343,7 @@ def check_case(ctx, case):
         if T['final']['loaded']:
             err('end:loaded', f'programs left loaded at the end: {T["final"]["loaded"]}')
         # ---- depth schedule per column and block
-        for ci, c in enumerate(case['cols']):
-            p = c['col']
+        for ci, p in enumerate(eff):
             D = depth[ci]
             n = D['n']
             # the code divides floats, the model their exact values: at an integer quotient the two ceilings may differ
@@ -435,7 +452,7 @@ def run(ctx):
 
 def replay(ctx, payload):
     c = payload['case']
-    case = {k: c[k] for k in KEYS}
+    case = {k: c.get(k) for k in KEYS}
     r = check_case(ctx, case)
     if r:
         r[1](ctx.driver.ask(r[0]))
